@@ -168,7 +168,8 @@ Unsubscribe(c, id, fs) ==
    For a publisher subscribed to its own topic the expected output lists the PUBACK before (Pubrel: the PUBCOMP behind)
    the deliveries the packet causes on the publisher's own connection. That position is a choice of this text, not of any
    property (4.3.2 / 4.3.3 do not order the acknowledgement and the onward delivery): the replayer compares the
-   acknowledgements and the deliveries of such a step as two streams.                    *)
+   acknowledgements and the deliveries of such a step as two streams.  The same holds for a SUBACK and the retained
+   messages of its request (3.8.4: the server may start sending them before the SUBACK).  *)
 Publish(c, t, q, retain, pl, id, dup) ==
   /\ c \in Conns /\ Up(c) /\ q \in {0, 1}
   /\ ret' = RetUpd(ret, t, q, pl, retain)
